@@ -40,7 +40,14 @@ Print Assumptions C04_no_match_iff.
    (eager ones first); with no match, the longest dispatchable prefix fires and
    the rest is re-examined, else exactly one key is dropped; once a handler
    has finished the application (d = app.is_done) the rest is not re-examined
-   but handed back to the front of the input queue, in order. *)
+   but handed back to the front of the input queue, in order.
+   NOTE an asymmetry the rule has because the code has it: eager bindings get
+   priority only when the WHOLE pending sequence is dispatched (PS_fire uses
+   BestFire: if some active exact match is eager, only eager ones compete).  In
+   the retry pass the dispatched prefix goes to BestOf (ExactP ..), the
+   last-registered most specific active match whether eager or not
+   (`matches[-1]` of the scan).  So with #0 = a (eager), #1 = a, #2 = c-a-d:
+   typing a fires #0, typing c a b fires #1 on [a] (design.d/C04.md observation 6). *)
 Theorem C04_rule : forall l b e q d it,
   pass_spec l (push b it) (is_flush it) e q d (send (index_from 0 l) b e q d it).
 Proof. exact send_refines_rule. Qed.
@@ -197,6 +204,16 @@ Theorem C04_denot : forall s i o, wfs s -> nth_error s i = Some o ->
   end.
 Proof. exact denot_unfold. Qed.
 Print Assumptions C04_denot.
+
+(* the invariant is kept by every operation, so [C04_cache_coherent] and [C04_denot]
+   (which needs [wfs] of the store after the history) compose from this file alone *)
+Theorem C04_history_inv : forall ops s, Inv s -> Inv (fold_left rstep ops s).
+Proof. exact history_inv. Qed.
+Print Assumptions C04_history_inv.
+
+Theorem C04_inv_wfs : forall s, Inv s -> wfs s.
+Proof. exact Inv_wfs. Qed.
+Print Assumptions C04_inv_wfs.
 
 (* freshly constructed objects satisfy the invariant *)
 Theorem C04_initial_inv : forall s, wfs s -> (forall i o, nth_error s i = Some o -> fresh_obj o) -> Inv s.
